@@ -319,7 +319,7 @@ def run_flips(case):
         classes.append("flip-strips-tsig")
     if n_unauth:
         classes += ["unauthenticated:" + k for k in sorted(unauth_kinds)]
-    return {"nontrivial": True, "classes": classes, "_flips": n_auth}
+    return {"nontrivial": True, "classes": classes, "units": n_auth + n_unauth}
 
 
 # ---------------------------------------------------------------------------
